@@ -251,9 +251,10 @@ def sp_path(r, path):
         return path
     if c < 0.7:
         return 'self::' + path
-    if c < 0.85 or path not in ('m_eq', 'm_cmp', 'm_pcmp', 'm_hash', 'm_fmt'):
+    if c < 0.85 or not path.startswith('m_'):
         return 'crate::support::' + path
-    return 'crate::support::g::%s::<0, %s>' % (path, '_, _' if path == 'm_hash' else '_')
+    nargs = {'m_hash': 2, 'm_into': 2}.get(path, 1)
+    return 'crate::support::g::%s::<0, %s>' % (path, ', '.join(['_'] * nargs))
 def sp_method(r, trait, path):
     return pick(r, ['%s(method(%s))', '%s(method = %s)', '%s(method = "%s")', '%s(method("%s"))']) % (trait, sp_path(r, path))
 def sp_rank(r, n):
@@ -295,7 +296,7 @@ def module(t, body, nvals):
     if NOISE[0] is not None and not getattr(t, '_noised', False):
         t._noised = True
         add_noise(t, NOISE[0][1], NOISE[0][0])
-    ty = ('pub mod ty {\n    #![deny(warnings)]\n    #![allow(dead_code, unused_imports, non_snake_case)]\n    use crate::support::{A, B, C, N, Fl, Good, Bad, Half, g_clone, g_default, g_into, m_eq, m_cmp, m_pcmp, m_hash, m_fmt, m_clone, m_clone_c, m_into, m_same, Mk, g_eq, g_cmp, g_pcmp, g_hash, g_fmt};\n'
+    ty = ('pub mod ty {\n    #![deny(warnings)]\n    #![allow(dead_code, unused_imports, non_snake_case)]\n    use crate::support::{A, B, C, N, Fl, Good, Bad, Half, g_clone, g_default, g_into, m_eq, m_eqv, m_cmp, m_pcmp, m_hash, m_fmt, m_clone, m_clone_c, m_into, m_same, Mk, g_eq, g_cmp, g_pcmp, g_hash, g_fmt};\n'
           '    use educe::Educe;\n%s%s\n}\npub use ty::T;' % (HOSTILE_ITEMS if HOSTILE[0] else '', type_decl(t)))
     return ('// %s\n#![allow(dead_code, unused_variables, unused_mut, unused_imports, non_shorthand_field_patterns, clippy::all)]\n'
             'use crate::support::*;\nuse core::cmp::Ordering;\n%s\n%s\n' % (t.id, ty, body))
@@ -386,19 +387,30 @@ class HashSuite(Suite):
     name = 'hash'
     def make(self, r, tid):
         t = gen_shape(r, tid)
-        t.type_attrs = ['Hash']
+        # "when PartialEq is educed with the same ignore and method choices, a == b implies hash(a) == hash(b)"
+        with_eq = r.random() < 0.5
+        t.type_attrs = ['Hash'] if not with_eq else pick(r, [['Hash', 'PartialEq'], ['PartialEq', 'Hash'], ['Hash, PartialEq'], ['PartialEq, Hash']])
         add_discriminants(r, t, p_disc=0.45, p_repr=0.1)
         for v in t.variants:
             for f in v.fields:
                 c = r.random()
+                eqm = None
                 if c < 0.3:
                     f.at['h'] = 'ignore'; f.at['_metas'] = [sp_ignore(r, 'Hash') if r.random() < 0.7 else sp_ignore_with_method(r, 'Hash', 'm_hash')]
+                    eqm = sp_ignore(r, 'PartialEq')
                 elif c < 0.55:
                     f.at['h'] = 'method'; f.at['_metas'] = [sp_method(r, 'Hash', 'm_hash')]
+                    eqm = sp_method(r, 'PartialEq', 'm_eqv')
                 else:
                     f.at['h'] = 'plain'
                     if r.random() < 0.25:
                         f.at['_metas'] = [pick(r, ['Hash = true', 'Hash(ignore = false)', 'Hash(ignore(false))'])]
+                    if r.random() < 0.35:
+                        eqm = pick(r, ['PartialEq = true', 'PartialEq(ignore = false)', 'PartialEq(ignore(false))'])
+                if with_eq and eqm:
+                    f.at['_metas'] = f.at.get('_metas', []) + [eqm]
+                    if r.random() < 0.5:
+                        f.at['_r'] = r          # one list / shuffled; otherwise stacked #[educe(..)] attributes in this order
         arms = []
         for vi, v in enumerate(t.variants):
             st = []
@@ -411,11 +423,15 @@ class HashSuite(Suite):
                     st.append('::core::hash::Hash::hash(p%d, &mut e);' % i)
             arms.append('%s => { %s }' % (pat(t, v, 'p'), ' '.join(st)))
         vf, nv = values_fn(t, r)
+        eqcheck = ''
+        if with_eq:
+            eqcheck = (' for a in &vs { for b in &vs { if a == b { let mut ga = Rec::default(); ::core::hash::Hash::hash(a, &mut ga); let mut gb = Rec::default(); ::core::hash::Hash::hash(b, &mut gb);'
+                       ' out.check(ga.0 == gb.0, "%s", "eq_implies_same_hash", || format!("{} == {} but they feed {:?} and {:?}", show(a), show(b), ga.0, gb.0)); } } }' % tid)
         body = '\n'.join([vf, show_fn(t),
             'pub fn o_hash(x: &T) -> Vec<String> { let mut e = Rec::default(); match x { %s } e.0 }' % ', '.join(arms),
             'pub fn run(out: &mut Out) { let vs = values(); for a in &vs { let mut g = Rec::default(); ::core::hash::Hash::hash(a, &mut g); let e = o_hash(a);'
-            ' out.check(g.0 == e, "%s", "hash", || format!("hash({}) fed {:?} expected {:?}", show(a), g.0, e)); }'
-            ' let mut res = String::new(); for a in &vs { let mut g = Rec::default(); ::core::hash::Hash::hash(a, &mut g); res.push_str(&g.0.join(",")); res.push(\';\'); } println!("RES\\t%s\\thash\\t{}", res); }' % (tid, tid)])
+            ' out.check(g.0 == e, "%s", "hash", || format!("hash({}) fed {:?} expected {:?}", show(a), g.0, e)); }%s'
+            ' let mut res = String::new(); for a in &vs { let mut g = Rec::default(); ::core::hash::Hash::hash(a, &mut g); res.push_str(&g.0.join(",")); res.push(\';\'); } println!("RES\\t%s\\thash\\t{}", res); }' % (tid, eqcheck, tid)])
         return t, module(t, body, nv), dict(values=nv, xops=['hash'])
 
 class OrdSuite(Suite):
@@ -787,8 +803,13 @@ class DefaultSuite(Suite):
         t = gen_shape(r, tid, ftgen=ftgen, min_variants=1)
         tparams = []
         new = r.random() < 0.4
+        own_new = False
         if new:
             tparams.append(pick(r, ['new', 'new = true', 'new(true)']))
+        elif r.random() < 0.3:
+            # `new` switched off explicitly: the type may then have a `new` of its own
+            tparams.append(pick(r, ['new = false', 'new(false)']))
+            own_new = True
         texpr = None
         xscope = True       # model cross-check: every designated value is a literal / A(n) / Some(n) / None or the type's default
         if r.random() < 0.12:
@@ -824,6 +845,8 @@ class DefaultSuite(Suite):
                 wrong = build(t, wv, [(f.ft.defs[-1][1] if f.ft.defs else f.ft.dflt) for f in wv.fields])
                 if wrong != expected:
                     fns.append('impl T { pub fn default() -> T { %s } }' % wrong)
+        if own_new:
+            fns.append('impl T { pub fn new() -> T { o_default() } }')
         xops = []
         if xscope and texpr is None:
             t.xvalues = []
@@ -955,10 +978,10 @@ class IntoSuite(Suite):
                 if mark:
                     if tg.startswith('A') and r.random() < 0.4:
                         meth = 'm_same'
-                        f.at.setdefault('_metas', []).append(pick(r, ['Into(%s, method(m_same))', 'Into(%s, method = m_same)', 'Into(%s, method = "m_same")']) % tg)
+                        f.at.setdefault('_metas', []).append(pick(r, ['Into(%s, method(%s))', 'Into(%s, method = %s)', 'Into(%s, method = "%s")', 'Into(%s, method("%s"))']) % (spell(tg), sp_path(r, 'm_same')))
                     elif tg.startswith('B') and r.random() < 0.4:
                         meth = True
-                        f.at.setdefault('_metas', []).append(pick(r, ['Into(%s, method(m_into))', 'Into(%s, method = m_into)', 'Into(%s, method = "m_into")']) % tg)
+                        f.at.setdefault('_metas', []).append(pick(r, ['Into(%s, method(%s))', 'Into(%s, method = %s)', 'Into(%s, method = "%s")', 'Into(%s, method("%s"))']) % (spell(tg), sp_path(r, 'm_into')))
                     else:
                         f.at.setdefault('_metas', []).append('Into(%s)' % spell(tg))
                 oracle[(tg, v.name)] = (i, meth)
